@@ -160,6 +160,17 @@ def run_case(case):
         gone = run(t_0=t0 + int(far) * dt)
         v.check(bool(np.all(np.isfinite(gone))), "field is finite everywhere, one value per sample", shape=list(gone.shape), nonfinite=int(np.sum(~np.isfinite(gone))), shower_time="far outside the grid")
         v.close("a contained pulse moved by more than a window leaves at most its far tail in the window", float(np.max(np.abs(gone))) / pk, 5e-3, moved_by_windows=far / N, model=case["model"])
+    # (4c) the pulse owns its grid: in-place changes the caller makes to the array afterwards (before or after the first read) reach neither
+    # its times nor its values
+    for read_first in (True, False):
+        mine = np.array(ts)
+        sig_ = cls(mine, particle(E), psi, R, ice, t0)
+        if read_first:
+            sig_.values
+        mine += 7 * dt
+        v.check(np.array_equal(np.asarray(sig_.times), ts), "a pulse does not follow later in-place changes of the caller's grid array (times)", read_before_the_change=read_first, model=case["model"])
+        v.close("a pulse does not follow later in-place changes of the caller's grid array (values)", float(np.max(np.abs(np.array(sig_.values) - ref))) / sc if np.shape(sig_.values) == ref.shape else float("inf"),
+                1e-6 + jit / sc, read_before_the_change=read_first, model=case["model"])
     # (7) on the cone, EM showers: proportional to the energy
     if case["shower"] == "em":
         f_ = 3.7
